@@ -2,8 +2,8 @@ package main
 
 import (
 	"fmt"
-	"os"
 	"go/types"
+	"os"
 	"sort"
 	"strings"
 	"time"
@@ -694,8 +694,14 @@ type ghostState struct {
 	notes         []string
 }
 
+// poolGhost mirrors what the runtime's sync.Pool does for one goroutine that is neither preempted to another P
+// nor interrupted by a GC cycle: a private slot that is filled first and emptied first, and a LIFO shared
+// queue behind it. (Any other reuse order is legal for sync.Pool too, but this is the one the native twin
+// reproduces, so counterexamples that depend on pooled-object reuse replay against the real build.)
 type poolGhost struct {
-	items []value
+	private    value
+	hasPrivate bool
+	items      []value
 }
 
 func newGhost() *ghostState {
